@@ -1,5 +1,6 @@
 import Lean.Data.Json
 import SpoxModel.Model.Inline
+import SpoxModel.Model.InlineSeq
 /-! Line-protocol handler for property C08 (model side of the correspondence).
 
 Request  `{"model": M, "call": {"npos": n, "kws": [..]}, "argTypes": [ty|"untyped"..]?, "ctx": C?,
@@ -169,6 +170,11 @@ def handleEval (req : Json) : Except String Json := do
   | some outs => return Json.mkObj [("out", Json.arr (outs.map fun o =>
       match o with | none => Json.null | some v => toJson v).toArray)]
 
+/-- the premise of `C08.toOnnxSeq_total` on the node names -/
+def pairwiseB {α : Type} (r : α → α → Bool) : List α → Bool
+  | [] => true
+  | a :: l => l.all (r a) && pairwiseB r l
+
 def handleInline (req : Json) : Except String Json := do
   let mj ← req.getObjVal? "model"
   let g ← parseGraph (← mj.getObjVal? "graph")
@@ -234,6 +240,31 @@ def handleInline (req : Json) : Except String Json := do
         | .ok em => Json.mkObj [
             ("nodes", Json.arr (em.nodes.map nodeJson).toArray),
             ("var", spaceJson em.var), ("node", spaceJson em.node)])]
+    -- several Inline nodes emitted one after the other in ONE scope (`toOnnxSeq`, theorem `inline_compose`)
+    match req.getObjVal? "seq" with
+    | .error _ => pure ()
+    | .ok sj =>
+      let var ← parseSpace (← sj.getObjVal? "var")
+      let node ← parseSpace (← sj.getObjVal? "node")
+      let sitesJ ← sj.getObjValAs? (Array Json) "sites"
+      let mut sites : List Site := []
+      for j in sitesJ.toList do
+        let k ← j.getObjValAs? String "nodeName"
+        let a ← j.getObjValAs? (List String) "argNames"
+        let r ← j.getObjValAs? (List String) "resNames"
+        -- a site may carry its own model graph (another inlined model); default: the request's model
+        let sg ← match j.getObjVal? "graph" with
+          | .ok gj => parseGraph gj
+          | .error _ => pure g
+        sites := sites ++ [Site.mk sg k a r]
+      let safe := pairwiseB (fun s t => incomp (s.nodeName ++ "__") (t.nodeName ++ "__")) sites &&
+        sites.all (fun s => var.prefixFree s.nodeName && node.prefixFree s.nodeName)
+      out := out ++ [("seqSafe", toJson safe)]
+      out := out ++ [("seq", match toOnnxSeq sites var node with
+        | .error e => errJson e
+        | .ok (ns, v, n) => Json.mkObj [
+            ("nodes", Json.arr (ns.map nodeJson).toArray),
+            ("var", spaceJson v), ("node", spaceJson n)])]
     return Json.mkObj out
 
 def handleNames (req : Json) : Except String Json := do
